@@ -188,9 +188,27 @@ def parseOp (h : Heap) (hs : List Ref) (ws : List String) : Option (Funs × Op) 
     pure (noF, .view m ix)
   | _ => none
 
+def showRead : Read → String
+  | .scalar v => showVal v
+  | .list vs => "[" ++ showVals vs ++ "]"
+
+/-- `read <handle> <name> <T|F>`: read a value back without changing anything -/
+def readOp (h : Heap) (hs : List Ref) (ws : List String) : Option String :=
+  match ws with
+  | ["read", k, name, u] => do
+    let m ← handle? hs k
+    let u ← (if u = "T" then some true else if u = "F" then some false else none)
+    pure (match getValue h m name u with
+      | .ok r => "ok#read=" ++ showRead r
+      | .error e => showErr e ++ "#read")
+  | _ => none
+
 def runOps (h : Heap) (hs : List Ref) : List String → List String
   | [] => []
   | op :: rest =>
+    match readOp h hs (words op) with
+    | some out => out :: runOps h hs rest
+    | none =>
     match parseOp h hs (words op) with
     | none => ["bad-op"]
     | some (fs, o) =>
